@@ -10,7 +10,7 @@ var explainMore = map[string]string{
 	"C05": "Also: (R5) the constructor hands the connection out only with a nil error, and close() on its failure path finds the driver connection already stored (or the raw connection is closed); (R10) the packet decoder does not loop over ReadPacket and the reader does not bypass its hand-off.",
 	"C06": "Also: (R8) the EOF sentinel is a value of its own (errors.New / fmt.Errorf), never an alias of another package's error, and the reason channel is received from only by Error().",
 	"C08": "Also: (R4) no reference-typed field or element of a delivered object is set to memory read out of a delivered object; (R5) nothing on the streamer's conversion path changes package-level state. Included: C02-R4.",
-	"C09": "Also: (R7) splitting and decoding change no package-level state. Included: C15-R1/R3/R5, C08-R1, C16-R1/R6.",
+	"C09": "Also: (R7) splitting and decoding change no package-level state and never write into the image they decode. Included: C15-R1/R3/R5, C08-R1, C16-R1/R6.",
 	"C10": "Included (the decode chain): C15-R1/R3 and R5 for these types, C15-R2, C09-R2 for these types and R3-R5, R7, C08-R1/R2.",
 	"C11": "Included (the decode chain): C15-R1/R3 and R5 for DECIMAL, C09-R2 for DECIMAL and R3-R5, R7, C08-R1/R2.",
 	"C12": "Included (the decode chain): C15-R1/R3 and R5 for the temporal types, C09-R2 for them and R3-R5, R7, C08-R1/R2.",
